@@ -59,6 +59,10 @@ func (k Keeper) DeleteRejectedDataOvertime(ctx sdk.Context, duration time.Durati
 		return err
 	}
 	for _, data := range rejectedData {
+		// the index key is truncated to seconds: compare the exact deadline
+		if data.Timestamp.Add(duration).After(ctx.BlockTime()) {
+			continue
+		}
 		if data.Status == types.Status_STATUS_REJECTED {
 			err = k.DeletePublishedData(ctx, data)
 			if err != nil {
@@ -76,6 +80,10 @@ func (k Keeper) DeleteVerifiedDataOvertime(ctx sdk.Context, duration time.Durati
 		return err
 	}
 	for _, data := range verifiedData {
+		// the index key is truncated to seconds: compare the exact deadline
+		if data.Timestamp.Add(duration).After(ctx.BlockTime()) {
+			continue
+		}
 		if data.Status == types.Status_STATUS_VERIFIED {
 			err = k.DeletePublishedData(ctx, data)
 			if err != nil {
@@ -131,6 +139,10 @@ func (k Keeper) ChangeToVerifiedFromProofPeriod(ctx sdk.Context, duration time.D
 		return err
 	}
 	for _, data := range expiredChallengePeriodData {
+		// the index key is truncated to seconds: compare the exact deadline
+		if data.Timestamp.Add(duration).After(ctx.BlockTime()) {
+			continue
+		}
 		if data.Status == types.Status_STATUS_CHALLENGE_PERIOD {
 			data.Status = types.Status_STATUS_VERIFIED
 			data.Timestamp = ctx.BlockTime()
@@ -179,6 +191,10 @@ func (k Keeper) TallyValidityProofs(ctx sdk.Context, duration time.Duration, rep
 	faultValidators := make(map[string]sdk.ValAddress)
 
 	for _, data := range challengingData {
+		// the index key is truncated to seconds: compare the exact deadline
+		if data.Timestamp.Add(duration).After(ctx.BlockTime()) {
+			continue
+		}
 		if data.Status == types.Status_STATUS_CHALLENGING {
 			proofs, err := k.GetProofs(ctx, data.MetadataUri)
 			if err != nil {
